@@ -46,7 +46,7 @@ def run_tlc_trace(tracefile):
     return bad, r.distinct or 0
 
 
-BUDGET = {"quick": 1500, "thorough": int(os.environ.get("VERIF_THOROUGH_BUDGET_S", "2400"))}
+BUDGET = {"quick": 1500, "thorough": int(os.environ.get("VERIF_THOROUGH_BUDGET_S", "1500"))}
 _deadline = [None]
 
 
